@@ -11,35 +11,47 @@ FR = "core/src/security/framer/mod.rs"
 
 FLAGS_HINT = "proof { lemma_bits_or(); }"
 
-# the two nested for-loops of frame_contiguous
-inner_take = "group@.take(it2.index@ + 1).drop_last() =~= group@.take(it2.index@)"
-outer_take = "batch@.take(it1.index@ + 1).drop_last() =~= batch@.take(it1.index@)"
+# Nested `for group in batch { for msg in group { .. } }` loops are desugared (R9) into indexed while loops
+# vx_sK / vx_iK (K = loop ordinal).  At an outer loop head vx_iK groups are done; inside the outer body (and thus in the
+# inner loop's invariants and in body hints) the current group is number vx_iK - 1, the current frame vx_i(K+1) - 1.
+def outer_inv(K, clauses):
+  o = "vx_i%d" % K
+  return [c if isinstance(c, str) else (c[0], c[1].replace("IT1", o)) for c in
+          [(n, t) if n else t for (n, t) in [((c[0], c[1]) if not isinstance(c, str) else (None, c)) for c in clauses]]] and \
+         [((c[0], c[1].replace("IT1", o)) if not isinstance(c, str) else c.replace("IT1", o)) for c in clauses] + \
+         ["vx_s%d@ == batch@" % K, "%s <= batch@.len()" % o]
+
+def inner_inv(K, clauses):
+  o, i = "(vx_i%d - 1)" % K, "vx_i%d" % (K + 1)
+  def sub(t):
+    return t.replace("IT1", o).replace("IT2", i)
+  return [((c[0], sub(c[1])) if not isinstance(c, str) else sub(c)) for c in clauses] + \
+         ["vx_s%d@ == batch@" % K, "vx_s%d@ == group@" % (K + 1), "1 <= vx_i%d <= batch@.len()" % K, "%s <= group@.len()" % i, "*group == batch@[%s]" % o]
+
+def body_hint(K, t):
+  return t.replace("IT1", "(vx_i%d - 1)" % K).replace("IT2", "(vx_i%d - 1)" % (K + 1))
 
 fc_loops = {
   # sizing pass
-  0: {"ghost_iter": "it1",
-      "invariant": [
-        ("C03:size_outer", "required_size == wire_batches(batch@.take(it1.index@))"),
-        "wire_batches(batch@) <= usize::MAX", "it1.index@ <= batch@.len()",
-        "self.coalesce_buffer@ =~= Seq::<u8>::empty()",
-      ]},
-  1: {"ghost_iter": "it2", "iter_sub": ("group", "group.verif_frames()"),
-      "invariant": [
-        ("C03:size_inner", "required_size == wire_batches(batch@.take(it1.index@)) + wire_all(group@.take(it2.index@))"),
-        "wire_batches(batch@) <= usize::MAX", "0 <= it1.index@ < batch@.len()", "it2.index@ <= group@.len()", "*group == batch@[it1.index@]",
-        "self.coalesce_buffer@ =~= Seq::<u8>::empty()",
-      ]},
+  0: {"desugar": True,
+      "invariant": outer_inv(0, [
+        ("C03:size_outer", "required_size == wire_batches(batch@.take(IT1 as int))"),
+        "wire_batches(batch@) <= usize::MAX", "self.coalesce_buffer@ =~= Seq::<u8>::empty()",
+      ])},
+  1: {"desugar": True, "iter_sub": ("group", "group.verif_frames()"),
+      "invariant": inner_inv(0, [
+        ("C03:size_inner", "required_size == wire_batches(batch@.take(IT1 as int)) + wire_all(group@.take(IT2 as int))"),
+        "wire_batches(batch@) <= usize::MAX", "self.coalesce_buffer@ =~= Seq::<u8>::empty()",
+      ])},
   # encoding pass
-  2: {"ghost_iter": "it1",
-      "invariant": [
-        ("C03:enc_outer", "self.coalesce_buffer@ == enc_batches(batch@.take(it1.index@))"),
-        "it1.index@ <= batch@.len()",
-      ]},
-  3: {"ghost_iter": "it2", "iter_sub": ("group", "group.verif_frames()"),
-      "invariant": [
-        ("C03:enc_inner", "self.coalesce_buffer@ == enc_batches(batch@.take(it1.index@)) + enc_all(group@.take(it2.index@))"),
-        "0 <= it1.index@ < batch@.len()", "it2.index@ <= group@.len()", "*group == batch@[it1.index@]",
-      ]},
+  2: {"desugar": True,
+      "invariant": outer_inv(2, [
+        ("C03:enc_outer", "self.coalesce_buffer@ == enc_batches(batch@.take(IT1 as int))"),
+      ])},
+  3: {"desugar": True, "iter_sub": ("group", "group.verif_frames()"),
+      "invariant": inner_inv(2, [
+        ("C03:enc_inner", "self.coalesce_buffer@ == enc_batches(batch@.take(IT1 as int)) + enc_all(group@.take(IT2 as int))"),
+      ])},
 }
 
 parts = [
@@ -82,20 +94,20 @@ parts = [
      loops=fc_loops,
      hints=[
        ("size_in_end", "@loop_end:0", 0, "",
-        "      proof { assert(group@.take(group@.len() as int) =~= group@); lemma_wire_batches_snoc(batch@, it1.index@); }"),
+        body_hint(0, "      proof { assert(group@.take(group@.len() as int) =~= group@); lemma_wire_batches_snoc(batch@, IT1 as int); }")),
        ("enc_in_end", "@loop_end:2", 0, "",
-        "      proof { assert(group@.take(group@.len() as int) =~= group@); lemma_enc_batches_snoc(batch@, it1.index@); }"),
+        body_hint(2, "      proof { assert(group@.take(group@.len() as int) =~= group@); lemma_enc_batches_snoc(batch@, IT1 as int); }")),
        ("size_in", "@loop_start:1", 0, "",
-        "proof { lemma_wire_all_snoc(group@, it2.index@); lemma_wire_all_prefix(group@, it2.index@ + 1); lemma_wire_batches_prefix(batch@, it1.index@ + 1); lemma_wire_batches_snoc(batch@, it1.index@); }"),
+        body_hint(0, "proof { lemma_wire_all_snoc(group@, IT2 as int); lemma_wire_all_prefix(group@, IT2 + 1); lemma_wire_batches_prefix(batch@, IT1 + 1); lemma_wire_batches_snoc(batch@, IT1 as int); }")),
        ("size_out", "self.coalesce_buffer.reserve(required_size);", 0, "before",
         "proof { assert(batch@.take(batch@.len() as int) =~= batch@); }"),
-       ("snap", "@loop_start:3", 0, "", "let ghost b0 = self.coalesce_buffer@;"),
+       ("snap", "@loop_start:3", 0, "", body_hint(2, "let ghost b0 = self.coalesce_buffer@; proof { assert(*msg == group@[IT2 as int]); assert(group@.take(IT2 + 1).drop_last() =~= group@.take(IT2 as int)); }")),
        ("bits", "@loop_start:3", 0, "", FLAGS_HINT),
        ("hdr", "re:self\\.coalesce_buffer\\.put_slice\\(", 0, "before",
         "proof { assert(zmtp_flags == flags_byte(flags.more, flags.command, len > 255)); assert(self.coalesce_buffer@ =~= b0 + enc_hdr(flags.more, flags.command, len as nat)); }"),
        ("enc_in", "re:self\\.coalesce_buffer\\.put_slice\\(", 0, "after",
-        "proof { assert(self.coalesce_buffer@ =~= b0 + enc_msg(*msg)); lemma_enc_all_snoc(group@, it2.index@); "
-        "assert(self.coalesce_buffer@ =~= enc_batches(batch@.take(it1.index@)) + enc_all(group@.take(it2.index@ + 1))); }"),
+        body_hint(2, "proof { assert(self.coalesce_buffer@ =~= b0 + enc_msg(*msg)); lemma_enc_all_snoc(group@, IT2 as int); "
+        "assert(self.coalesce_buffer@ =~= enc_batches(batch@.take(IT1 as int)) + enc_all(group@.take(IT2 + 1))); }")),
        ("done", "Ok(self.coalesce_buffer.split().freeze())", 0, "before",
         "proof { assert(batch@.take(batch@.len() as int) =~= batch@); }"),
      ],
@@ -114,17 +126,16 @@ parts = [
      extra=[("R8", "batch.iter().map(|g| g.len()).sum()", "verif_sum_lens(batch)", 1),
             ("R8", "msg.data_bytes().unwrap_or_default()", "verif_unwrap_or_default(msg.data_bytes())", 1)],
      loops={
-       0: {"ghost_iter": "it1",
-           "invariant": [("C03:vec_outer", "concat_bytes(out@) == enc_batches(batch@.take(it1.index@))"),
-                         "self.header_slab@.len() == 0", "it1.index@ <= batch@.len()", "no_commands_b(batch@)"]},
-       1: {"ghost_iter": "it2", "iter_sub": ("group", "group.verif_frames()"),
-           "invariant": [("C03:vec_inner", "concat_bytes(out@) == enc_batches(batch@.take(it1.index@)) + enc_all(group@.take(it2.index@))"),
-                         "self.header_slab@.len() == 0", "0 <= it1.index@ < batch@.len()", "it2.index@ <= group@.len()", "*group == batch@[it1.index@]",
-                         "no_commands_b(batch@)"]},
+       0: {"desugar": True,
+           "invariant": outer_inv(0, [("C03:vec_outer", "concat_bytes(out@) == enc_batches(batch@.take(IT1 as int))"),
+                                      "self.header_slab@.len() == 0", "no_commands_b(batch@)"])},
+       1: {"desugar": True, "iter_sub": ("group", "group.verif_frames()"),
+           "invariant": inner_inv(0, [("C03:vec_inner", "concat_bytes(out@) == enc_batches(batch@.take(IT1 as int)) + enc_all(group@.take(IT2 as int))"),
+                                      "self.header_slab@.len() == 0", "no_commands_b(batch@)"])},
      },
      hints=[
        ("in_end", "@loop_end:0", 0, "",
-        "      proof { assert(group@.take(group@.len() as int) =~= group@); lemma_enc_batches_snoc(batch@, it1.index@); }"),
+        body_hint(0, "      proof { assert(group@.take(group@.len() as int) =~= group@); lemma_enc_batches_snoc(batch@, IT1 as int); }")),
        ("snap", "@loop_start:1", 0, "", "let ghost o0 = out@;"),
        ("bits", "@loop_start:1", 0, "", "proof { lemma_bits_or(); assert(no_commands(group@)); assert(!msg.flags.command); }"),
        ("hdr", "out.push(self.header_slab.split().freeze());", 0, "before",
@@ -132,9 +143,9 @@ parts = [
        ("hdr2", "out.push(self.header_slab.split().freeze());", 0, "after",
         "proof { lemma_concat_push(o0, out@.last()); assert(out@ =~= o0.push(out@.last())); assert(concat_bytes(out@) == concat_bytes(o0) + enc_hdr(is_more, false, len as nat)); }\nlet ghost o1 = out@;"),
        ("pay", "@loop_end:1", 0, "",
-        "        proof { if len > 0 { lemma_concat_push(o1, payload); assert(out@ =~= o1.push(payload)); } "
-        "assert(concat_bytes(out@) =~= concat_bytes(o0) + enc_msg(*msg)); lemma_enc_all_snoc(group@, it2.index@); "
-        "assert(concat_bytes(out@) =~= enc_batches(batch@.take(it1.index@)) + enc_all(group@.take(it2.index@ + 1))); }"),
+        body_hint(0, "        proof { if len > 0 { lemma_concat_push(o1, payload); assert(out@ =~= o1.push(payload)); } "
+        "assert(concat_bytes(out@) =~= concat_bytes(o0) + enc_msg(*msg)); lemma_enc_all_snoc(group@, IT2 as int); "
+        "assert(concat_bytes(out@) =~= enc_batches(batch@.take(IT1 as int)) + enc_all(group@.take(IT2 + 1))); }")),
        ("done", "    Ok(out)", 0, "before", "proof { assert(batch@.take(batch@.len() as int) =~= batch@); }"),
      ]),
 ]
